@@ -730,13 +730,23 @@ func fedrRun(in *Sx) *Sx {
 			}
 		}
 		sent := []*Sx{}
+		idsOK := true
 		for _, n := range f.VerifPeerNames() {
 			st, _ := f.VerifPeerQueue(n)
 			for _, e := range st.Events[before[n]:] {
 				sent = append(sent, L(S(n), sxEvent(e)))
 			}
+			// every queue numbers its own events consecutively (the receiver drops an event whose id it has seen)
+			for i := range st.Events {
+				if i > 0 && st.Events[i].Id != st.Events[i-1].Id+1 {
+					idsOK = false
+				}
+			}
+			if k := len(st.Events); k > 0 && st.Events[k-1].Id+1 != st.NextID {
+				idsOK = false
+			}
 		}
-		pubs = append(pubs, L(K("sent", sent...), K("drop", Bool(drop)), K("opts", sxIterOpts(opts))))
+		pubs = append(pubs, L(K("sent", sent...), K("drop", Bool(drop)), K("opts", sxIterOpts(opts)), K("idsok", Bool(idsOK))))
 	}
 	// the receiving side: message events from n1 applied through eventStreamHandler
 	f.VerifOpenSession("n1", "s")
